@@ -222,15 +222,30 @@ impl Request {
     pub closed spec fn writer_chan(&self) -> int { WriteSpec::wchan(&self.response_writer->Some_0) }
     pub closed spec fn hdrs(&self) -> Seq<Header> { self.headers@ }
     pub closed spec fn version(&self) -> HTTPVersion { self.http_version }
+    pub closed spec fn meth(&self) -> Method { self.method }
+    pub closed spec fn target(&self) -> Seq<char> { self.path@ }
+    pub closed spec fn peer(&self) -> Option<std::net::SocketAddr> { self.remote_addr }
 }
 //@impl src/request.rs "Request"
-//@fn headers ret r props C12
+//@fn headers ret r props C12,C02
 //@spec
     ensures r@ == self.hdrs(),
 //@endfn
-//@fn http_version ret r props C10,C12
+//@fn http_version ret r props C10,C12,C02
 //@spec
     ensures *r == self.version(),
+//@endfn
+//@fn method ret r props C02
+//@spec
+    ensures *r == self.meth(),       // O-ACCESSORS (C02): the accessors hand out the stored head, nothing is normalised
+//@endfn
+//@fn url ret r props C02
+//@spec
+    ensures r@ == self.target(),
+//@endfn
+//@fn remote_addr ret r props C02
+//@spec
+    ensures match r { Some(a) => self.peer() == Some(*a), None => self.peer() is None },
 //@endfn
 //@fn into_writer ret w
 //@assume
@@ -247,43 +262,58 @@ impl Request {
     // subset of the contract proved in U-NEWREQ, plus the by-value consumption of `writer` (A-DROP)
     ensures
         match res {
-            Ok(rq) => !rq.answered() && rq.writer_chan() == writer.wchan() && rq.hdrs() == headers@ && rq.version() == version,
+            Ok(rq) => !rq.answered() && rq.writer_chan() == writer.wchan() && rq.hdrs() == headers@ && rq.version() == version
+                && rq.meth() == method && rq.target() == path@ && rq.peer() == remote_addr,
             Err(_) => handed_off(chan_of(writer)),
         },
 //@endfn
 
-// ---- parsers that are str::split code (outside Verus): ASSUMED contracts ----
-pub uninterp spec fn request_line_parse(s: Seq<char>) -> Option<(Method, String, HTTPVersion)>;
+// ---- the line parsers: contracts PROVED in U-PARSE on the real bodies (tools/linkcheck.py compares the texts) ----
+//@include prelude/trim.rs
+//@include prelude/split.rs
+//@include contracts/parse_spec.inc
 //@fn src/client.rs parse_request_line ret r
 //@assume
 //@spec
-    ensures match r {
-        Ok(t) => request_line_parse(line@) == Some(t),
-        Err(e) => request_line_parse(line@) is None && e is WrongRequestLine,
-    },
+    ensures
+        match r {
+            // O-REQLINE (C02): method token, target and version are the first three space-separated parts of the line, as sent
+            // (whatever follows a third space is ignored): the method by the (case-sensitive) token table, the target byte
+            // for byte, the version by the version table
+            Ok(t) => {
+                let p0 = head_of(line@, ' ');
+                let t0 = tail_of(line@, ' ');
+                &&& t0 is Some && tail_of(t0->Some_0, ' ') is Some
+                &&& method_of(t.0, p0)
+                &&& t.1@ == head_of(t0->Some_0, ' ')
+                &&& version_of(t.2, head_of(tail_of(t0->Some_0, ' ')->Some_0, ' '))
+            },
+            // a line is refused as malformed; (that it is refused ONLY for having fewer than three parts, a non-ASCII method
+            // token or a version outside the table cannot be stated: string-literal patterns give this Verus no negative
+            // information -- the positive half of the version table is K-VER)
+            Err(e) => e is WrongRequestLine,
+        },
 //@endfn
-pub uninterp spec fn header_line_parse(s: Seq<char>) -> Option<Header>;
-/// witness: header h is the result of parsing exactly this text
-pub uninterp spec fn parsed_from(h: Header, s: Seq<char>) -> bool;
 //@impl src/common.rs "FromStr for Header"
 //@fn from_str ret r
 //@assume
 //@spec
-    ensures match r { Ok(h) => header_line_parse(input@) == Some(h) && parsed_from(h, input@), Err(_) => header_line_parse(input@) is None },
+    ensures
+        match r {
+            // O-HDR-SPLIT (C02, C16): the name is the text before the FIRST colon, taken as it is -- it may not contain
+            // whitespace anywhere (so neither ` Name: v`, `Na me: v` nor `Name : v` is accepted) --, the value is the rest
+            // of the line without its surrounding whitespace: nothing else is removed, decoded or merged
+            Ok(h) => tail_of(input@, ':') is Some && !has_whitespace(head_of(input@, ':'))
+                && h.field.name() == head_of(input@, ':') && is_trimmed_of(h.value@, tail_of(input@, ':')->Some_0),
+            // ... and a line is refused only for one of these reasons
+            Err(_) => tail_of(input@, ':') is None || !str_is_ascii(input@) || has_whitespace(head_of(input@, ':')),
+        },
 //@endfn
 //@endimpl
 impl AsciiString {
     #[verifier::external_body]
     pub fn is_empty(&self) -> (r: bool) ensures r == (self@.len() == 0) { unimplemented!() }
 }
-pub open spec fn ws_char(c: char) -> bool { vstd::std_specs::char::is_white_space(c) }
-// str::trim removes whitespace on both sides, str::trim_end only at the end (std documentation)
-pub assume_specification[ str::trim ](s: &str) -> (r: &str)
-    ensures exists|a: int, b: int| 0 <= a <= b <= s@.len() && r@ == s@.subrange(a, b)
-        && (forall|i: int| 0 <= i < a ==> ws_char(#[trigger] s@[i])) && (forall|i: int| b <= i < s@.len() ==> ws_char(#[trigger] s@[i]));
-pub assume_specification[ str::trim_end ](s: &str) -> (r: &str)
-    ensures r@.len() <= s@.len() && r@ == s@.take(r@.len() as int) && (forall|i: int| r@.len() <= i < s@.len() ==> ws_char(#[trigger] s@[i]));
-
 //@include contracts/header_lookup.inc
 
 /// C12: does this request end the connection?  (written from the property statement)
@@ -365,7 +395,7 @@ pub open spec fn ascii_bytes(s: Seq<u8>) -> bool { forall|i: int| 0 <= i < s.len
             }
 //@endfn
 
-//@fn read ret res props C01,C10,C14,C15,C16
+//@fn read ret res props C01,C02,C10,C14,C15,C16
 //@spec
     requires old(self).prior_handed_off(),
     ensures
@@ -378,6 +408,11 @@ pub open spec fn ascii_bytes(s: Seq<u8>) -> bool { forall|i: int| 0 <= i < s.len
         },
 //@entry
         broadcast use axiom_chan_of_seq_writer;
+        // ghost (C02): the request line and the header lines as they came off the wire (CRLF removed)
+        let ghost mut line0: Seq<char> = Seq::empty();
+        let ghost mut hlines: Seq<Seq<char>> = Seq::empty();
+//@after 1 self . read_next_line ( )
+                proof { line0 = line@; }
 //@before 1 loop
                 // ghost: number of non-empty header lines read so far
                 let ghost mut nlines: int = 0;
@@ -388,6 +423,10 @@ pub open spec fn ascii_bytes(s: Seq<u8>) -> bool { forall|i: int| 0 <= i < s.len
                         // O-NOSKIP (C10, C16): every non-empty line of the head has become exactly one header (or ended the
                         // request with an error): no line is skipped, none is entered twice
                         headers@.len() == nlines,   // [C10,C16]
+                        // O-HDR-FIDELITY (C02): the list built so far is, in order and one for one, what the non-empty
+                        // lines read so far say
+                        hlines.len() == headers@.len(),   // [C02]
+                        forall|i: int| 0 <= i < headers@.len() ==> hdr_of_line(#[trigger] headers@[i], hlines[i]),   // [C02,C16]
 //@after 2 self . read_next_line ( )
                     let ghost raw_line = line@;   // the head line as it came off the wire (CRLF removed)
 //@before 1 break
@@ -400,12 +439,25 @@ pub open spec fn ascii_bytes(s: Seq<u8>) -> bool { forall|i: int| 0 <= i < s.len
                     // O-LINE-WS (C16): what is parsed as a header is the line itself, from its first byte (only trailing
                     // whitespace may have been removed): a line that begins with whitespace (obsolete folding) reaches the
                     // header parser as such, whose name rule (O-NAME-WS, U-PARSE) refuses it
-                    proof {   // [C16]
+                    proof {   // [C16,C02]
                         let last = headers@.last();
                         assert(headers@.len() > 0);
-                        assert(exists|inp: Seq<char>| #[trigger] parsed_from(last, inp) && inp.len() <= line@.len() && inp == line@.take(inp.len() as int));
+                        assert(hdr_of_line(last, raw_line));
+                        hlines = hlines.push(raw_line);
                     }
 //@closure ~RequestCreationError::CreationIoError~ |e: RequestCreationError| -> (re: ReadError) ensures true
+//@atexit
+        // O-HEAD-FIDELITY (C02): the request that is delivered reports the method token, the target and the version that the
+        // request line carries (its first three space-separated parts, surrounding whitespace of the line aside), and the
+        // header list that the head lines carry, in order and one for one
+        proof {   // [C02]
+            assert($r is Ok ==> exists|rl: Seq<char>| #[trigger] is_trimmed_of(rl, line0) && tail_of(rl, ' ') is Some && tail_of(tail_of(rl, ' ')->Some_0, ' ') is Some
+                && method_of($r->Ok_0.meth(), head_of(rl, ' '))
+                && $r->Ok_0.target() == head_of(tail_of(rl, ' ')->Some_0, ' ')
+                && version_of($r->Ok_0.version(), head_of(tail_of(tail_of(rl, ' ')->Some_0, ' ')->Some_0, ' ')));
+            assert($r is Ok ==> $r->Ok_0.hdrs().len() == hlines.len()
+                && forall|i: int| 0 <= i < hlines.len() ==> hdr_of_line(#[trigger] $r->Ok_0.hdrs()[i], hlines[i]));
+        }
 //@endfn
 //@endimpl
 
